@@ -127,26 +127,23 @@ pub unsafe extern "C" fn vq_candidates(
 ) {
     let c = ctx(c);
     c.calls.borrow_mut()[1] += 1;
-    let pk = &c.u.packages[c.ix.name[&name]];
-    let (p, l) = c.keep(pk.cands.iter().map(|c| c.sid).collect());
+    // the very answer the Rust-side provider gives (a lock, hint or exclusion may name a
+    // solvable that is not among the listed candidates)
+    let ans = vcore::provider::candidates_answer(&c.u, c.ix.name[&name]).expect("expressible universes have no missing package");
+    let (p, l) = c.keep(ans.candidates.iter().map(|s| s.0).collect());
     *cands = p;
     *n = l;
-    *favored = pk.favored.map(|i| pk.cands[i].sid as i64).unwrap_or(-1);
-    *locked = pk.locked.map(|i| pk.cands[i].sid as i64).unwrap_or(-1);
-    let hv: Vec<u32> = match &pk.hint {
-        Hint::None => vec![],
-        Hint::All => pk.cands.iter().map(|c| c.sid).collect(),
-        Hint::Some(v) => v.iter().map(|&i| pk.cands[i].sid).collect(),
+    *favored = ans.favored.map(|s| s.0 as i64).unwrap_or(-1);
+    *locked = ans.locked.map(|s| s.0 as i64).unwrap_or(-1);
+    let hv: Vec<u32> = match &ans.hint_dependencies_available {
+        resolvo::HintDependenciesAvailable::None => vec![],
+        resolvo::HintDependenciesAvailable::All => ans.candidates.iter().map(|s| s.0).collect(),
+        resolvo::HintDependenciesAvailable::Some(v) => v.iter().map(|s| s.0).collect(),
     };
     let (p, l) = c.keep(hv);
     *hints = p;
     *nh = l;
-    let ev: Vec<u32> = pk
-        .cands
-        .iter()
-        .filter_map(|cd| cd.excluded.map(|e| [cd.sid, c.u.strings[e].id]))
-        .flatten()
-        .collect();
+    let ev: Vec<u32> = ans.excluded.iter().flat_map(|(s, r)| [s.0, r.0]).collect();
     let (p, l) = c.keep(ev);
     *excl = p;
     *ne = l / 2;
@@ -328,8 +325,7 @@ struct Report {
 // ------------------------------------------------------------------------- differential solve
 
 fn ffi_params() -> Params {
-    let mut p = Params::default().with_soft(3, 0);
-    p.lock_gone = false;
+    let mut p = Params::default().with_soft(3, 120);
     p.p_unknown = 0; // not expressible through the C++ interface
     p.max_pkgs = 7;
     p
@@ -373,8 +369,7 @@ fn eval_solve(tape: &[u16]) -> Report {
     let (u0, problem) = if head.first().map(|v| v % 2 == 0).unwrap_or(true) {
         gen_case(&mut t, &ffi_params())
     } else {
-        let mut p = Params::conflict_heavy().with_soft(3, 0);
-        p.lock_gone = false;
+        let mut p = Params::conflict_heavy().with_soft(3, 120);
         p.p_unknown = 0;
         gen_case(&mut t, &p)
     };
